@@ -150,6 +150,19 @@ Definition kreduce_spec f (k : val) (l : list val) (start : option val) : option
 
 Inductive life := LTick | LStatic.
 
+(* The lifetime table of `HydroNode::emit_core` (ProdDfirBuilder): every arm that takes a persistence
+   argument -- Enumerate, Unique, Fold / FoldKeyed / Scan, Reduce / ReduceKeyed,
+   ReduceKeyedWatermark (from the INPUT location), Join / CrossProduct (per side), JoinHalf (build
+   side; probe always 'tick), AntiJoin / Difference (negative side; positive always 'tick) --
+   calls `location_id.is_top_level()`, which is true for Process, Cluster AND Atomic and false
+   only for Tick.  The `LocationId::Atomic` special cases in the Fold / FoldKeyed / Reduce arms
+   only guard the simulator's `singleton_intermediates` paths (false in production).
+   Hence: nodes located at top level or in an atomic region are [snode]/[anode] (all 'static),
+   nodes located in a tick are [bnode] (all 'tick). *)
+Inductive lockind := LocTop | LocAtomic | LocTick.
+Definition lifetime_of (l : lockind) : life :=
+  match l with LocTop | LocAtomic => LStatic | LocTick => LTick end.
+
 Section Stateful.
   Variables St I O : Type.
   (* one DFIR operator instance run over successive ticks: [step] is the operator's work in one
